@@ -220,6 +220,45 @@ func c06units(tier string) []mc.Unit {
 			r.Bound("sweep", fmt.Sprintf("per table: %d lengths (every length to %d, then +7%% steps to %d) x about 22 shapes; complete genes for every start x stop codon x 26 body lengths; upper/lower split at every position of 5 sequences", len(lens), tier2(tier, 450, 900), lens[len(lens)-1]))
 		}})
 	}
+	// every length 1..L (tables 1, 2, 11; one pseudo-random mixed-case sequence per length)
+	maxLen := tier2(tier, 12300, 40000)
+	for _, id := range []int{1, 2, 11} {
+		id := id
+		for part := 0; part < 4; part++ {
+			part := part
+			us = append(us, mc.Unit{Name: fmt.Sprintf("every-length/table=%d/part=%d", id, part), Weight: maxLen / 100, Run: func(r *mc.Recorder) {
+				tbl := ncbiTable(id)
+				var t codon.Table
+				if p := catch(func() { t = codon.GetCodonTable(id) }); p != "" || len(t.AminoAcids) == 0 {
+					return
+				}
+				full := lcgString("ACGTacgtACGT", maxLen, uint32(id))
+				var cnt int64
+				for n := 1 + part; n <= maxLen; n += 4 {
+					s := full[maxLen-n:]
+					whole := c06tr(r, id, t, tbl, s, "in-frame")
+					k := n / 2
+					k -= k % 3
+					if k > 0 {
+						a, _ := codon.Translate(s[:k], t)
+						c, _ := codon.Translate(s[k:], t)
+						if a+c != whole {
+							r.Failf("concatenation", fmt.Sprintf("table %d pseudo-random sequence of %d letters split at %d", id, n, k), nil, q(whole), q(a+c))
+						}
+					}
+					cnt += 2
+					if r.Enough() {
+						break
+					}
+				}
+				r.Eval(cnt)
+				r.AddStates(cnt)
+				r.AddTransitions(cnt)
+				r.AddNontrivial(cnt)
+				r.Bound("every-length", fmt.Sprintf("every sequence length 1..%d for tables 1, 2, 11", maxLen))
+			}})
+		}
+	}
 	// the tables the library offers are still NCBI's after the combining operations were used on them
 	// (runs last in its own unit: what a call may leave behind in the package would show here)
 	us = append(us, mc.Unit{Name: "after-combining", Weight: 30, Run: func(r *mc.Recorder) {
